@@ -50,7 +50,7 @@ def concretise(c, i, rng):
     segs = [[{"pad": pad_for(s)} for s in seg["sizes"]] for seg in c["segs"]]
     return {"id": i, "cfg": {"blocksize": c["blocksize"], "comp": ["none", "none", "lz4"][i % 3], "thread": i % 2 == 0, "cache": c["cache"]},
             "segs": segs, "deletes": sorted(c["deletes"]), "merge": c["merge"], "access": ACCESS[i % len(ACCESS)], "seed": rng.randrange(1 << 30),
-            "gen": {k: c[k] for k in ("k", "nb", "tail", "big", "shape", "expect_stack")} | {"blocks": [s["blocks"] for s in c["segs"]], "layers": [s["layers"] for s in c["segs"]]}}
+            "gen": {k: c[k] for k in ("k", "nb", "tail", "big", "shape", "expect_stack", "merged_blocks")} | {"blocks": [s["blocks"] for s in c["segs"]], "layers": [s["layers"] for s in c["segs"]]}}
 
 
 def random_case(i, rng, big=False):
@@ -118,39 +118,37 @@ def run_cases(ctx, cases, label, timeout=900, collect=None):
 
 
 def parse_layout_prints(ctx, out, cases, units):
+    """what the judge printed about the layouts (Store!Cut on the observed sizes, block count of merged segments)
+    against what the generator asked for; coverage only, never a violation"""
     cov = ctx.cov.setdefault("layouts", {"blocks_per_segment": {}, "layers": {}, "data_bytes_as_predicted": 0, "data_bytes_mismatch": 0,
-                                         "segments_as_generated": 0, "segments_not_as_generated": 0, "merge_shapes": {},
-                                         "merge_choice_as_generated": 0, "merge_choice_not_as_generated": 0})
-    blocks = re.findall(r'<<"BLOCKS", (\d+), (\d+), "(\w+)", "([\w-]+)">>', out)
-    shapes = re.findall(r'<<"MERGESHAPE", "(\w+)", (\d+)>>', out)
-    want = []
-    for c in cases:
-        for b, ly in zip(c["gen"]["blocks"], c["gen"]["layers"]):
-            want.append((b, ly))
-    for i, (b, ly, comp, verdict) in enumerate(blocks):
+                                         "cases_as_generated": 0, "cases_not_as_generated": 0,
+                                         "merged_blocks_as_generated": 0, "merged_blocks_not_as_generated": 0, "merged_where_stack_differs": 0})
+    blocks = re.findall(r'<<"BLOCKS", (\d+), (\d+), (\d+), "(\w+)", "([\w-]+)">>', out)
+    merged = {int(c): (int(o), int(r)) for c, o, r in re.findall(r'<<"MERGED", (\d+), (-?\d+), (\d+)>>', out)}
+    per_case = {}
+    for cid, b, ly, comp, verdict in blocks:
+        per_case.setdefault(int(cid), []).append((int(b), int(ly)))
         cov["blocks_per_segment"][b] = cov["blocks_per_segment"].get(b, 0) + 1
         cov["layers"][ly] = cov["layers"].get(ly, 0) + 1
         if verdict == "layout-as-predicted":
             cov["data_bytes_as_predicted"] += 1
         elif verdict == "LAYOUT-MISMATCH":
             cov["data_bytes_mismatch"] += 1
-        if i < len(want):
-            if (int(b), int(ly)) == want[i]:
-                cov["segments_as_generated"] += 1
-            else:
-                cov["segments_not_as_generated"] += 1
-    for s, _ in shapes:
-        cov["merge_shapes"][s] = cov["merge_shapes"].get(s, 0) + 1
-    # merge choice: only observable without compression
-    mc = [c for c in cases if c["merge"] and c["cfg"]["comp"] == "none"]
-    for c, (s, _) in zip(mc, shapes):
-        exp = c["gen"]["expect_stack"]
-        e = "stack" if all(exp) else ("recompress" if not any(exp) else "mixed")
-        if s == e or s == "both":
-            cov["merge_choice_as_generated"] += 1
+    for c in cases:
+        if sorted(per_case.get(c["id"], [])) == sorted(zip(c["gen"]["blocks"], c["gen"]["layers"])):
+            cov["cases_as_generated"] += 1
         else:
-            cov["merge_choice_not_as_generated"] += 1
-    if cov["data_bytes_mismatch"] or cov["segments_not_as_generated"] or cov["merge_choice_not_as_generated"]:
+            cov["cases_not_as_generated"] += 1
+        # block count of the merged segment: only observable without compression
+        if c["id"] in merged:
+            obs, recompressed = merged[c["id"]]
+            if obs in c["gen"]["merged_blocks"]:
+                cov["merged_blocks_as_generated"] += 1
+                if obs != recompressed:
+                    cov["merged_where_stack_differs"] += 1     # the stacking path is visible in the block count
+            else:
+                cov["merged_blocks_not_as_generated"] += 1
+    if cov["data_bytes_mismatch"] or cov["cases_not_as_generated"] or cov["merged_blocks_not_as_generated"]:
         log(f"[C09] note: layout model and implementation differ somewhere (coverage only, not a violation): {cov}")
 
 
